@@ -228,7 +228,13 @@ def entry_points(rep, ctx, r, report):
     bad_strs += [s for s in gen_strings(r, 300 if thorough else 60)
                  if outcome(rd.utils.parse_nuclide, s, dd.nuclides, dd.dataset_name)[0] == "err"]
     bad_ints = [0, 5, -10030000, 862220010, 10090000, 1190010000, 10**10, True]
-    bad_types = [1.5, None, np.int64(10030000), ("H-3",), b"H-3"]
+    # valid uses first (so that anything the library may remember about a key is in place), then keys of the wrong type —
+    # including numbers that compare and hash EQUAL to a valid canonical id
+    for warm in (lambda: rd.Nuclide(10030000), lambda: rd.Inventory({10030000: 1.0, "C-14": 1.0}, "num"), lambda: dd.half_life(10030000),
+                 lambda: rd.InventoryHP({10030000: 1}, "num"), lambda: fresh().remove(10030000), lambda: dd.branching_fraction(10030000, "He-3")):
+        warm()
+    bad_types = [1.5, None, np.int64(10030000), ("H-3",), b"H-3", 10030000.0, np.float64(10030000), fractions.Fraction(10030000),
+                 decimal.Decimal(10030000), complex(10030000, 0)]
     nuc_eps = {
         "Nuclide": lambda x: rd.Nuclide(x),
         "Inventory": lambda x: rd.Inventory({x: 1.0}, "num"),
@@ -257,6 +263,22 @@ def entry_points(rep, ctx, r, report):
             want = "NotImplementedError" if ep == "remove" else "TypeError"
             if real != ("err", want):
                 report(ep, repr(x), real, f"key of type {type(x).__name__} should raise {want}")
+    # two datasets carrying the SAME name but different nuclide lists: what one contains says nothing about the other
+    from props.c09 import all_names_dataset
+    ds_a = all_names_dataset(rd, ["H-3", "He-3", "C-14"])
+    ds_b = all_names_dataset(rd, ["C-14", "N-14"])
+    for key in ("H-3", "3H", 10030000, "He-3"):
+        for nm_, mk in (("Nuclide", lambda k, d: rd.Nuclide(k, d)), ("Inventory", lambda k, d: rd.Inventory({k: 1.0}, "num", True, d)),
+                        ("half_life", lambda k, d: d.half_life(k))):
+            first = outcome(mk, key, ds_a)
+            second = outcome(mk, key, ds_b)
+            rep.case(("same-name-datasets", nm_, repr(key)))
+            rep.dist("entry:same-name-datasets")
+            if first[0] != "ok":
+                report(nm_, repr(key), first, "valid nuclide of the dataset refused")
+            if second[0] == "ok" or second[1] not in OK_ERRS:
+                report(nm_, repr(key), second, "nuclide that is NOT in this dataset (a second dataset with the same name holds it) "
+                                              "not refused with ValueError")
     # read_csv rows
     for x in bad_strs[:20]:
         if any(c in x for c in ',"\n') or x.strip() == "":
